@@ -277,6 +277,44 @@ def materialise(case: Dict[str, Any], base: Path) -> Tuple[Any, Dict[str, Any]]:
 # running the real parser
 # --------------------------------------------------------------------------------------------------
 
+def poison_text(case: Dict[str, Any]) -> str:
+    """a file that registers the case's own names in every table (metadata, constants, string constants, aliases, hosts,
+    modules, structs, messages — well-formed, distinct, so that every section is handled) and then fails on a duplicate
+    message id in its last section: `Parser.parse` raises and calls `clear()`.  Whatever survived `clear()` would meet
+    the same names again when the same Parser object is given the case itself."""
+    f = new_file("zz_poison.yaml")
+    seen = set()
+
+    def ok_name(n) -> bool:
+        return isinstance(n, str) and n[:1].isalpha() and n.isidentifier() and n not in seen
+
+    ids = {"hosts": iter(range(20000, 30000)), "modules": iter(range(20000, 30000))}
+    for cf in case["files"]:
+        for key in ("consts", "strs", "aliases", "structs"):
+            for n in cf[key]:
+                if ok_name(n):
+                    seen.add(n)
+                    f[key].append(n)
+        for n in cf["mdata"]:
+            if isinstance(n, str) and n not in f["mdata"]:
+                f["mdata"].append(n)
+        for key in ("hosts", "modules"):
+            for n, _v in cf[key]:
+                if isinstance(n, str) and n[:1].isalpha() and n.isidentifier() and n not in [x[0] for x in f[key]]:
+                    f[key].append([n, next(ids[key])])
+        for m in cf["msgs"]:
+            if m[0] == "m" and ok_name(m[1]):
+                seen.add(m[1])
+                f["msgs"].append(["m", m[1], 9000 - len(f["msgs"]), "sig"])
+    for key in ("consts", "strs", "aliases", "structs"):
+        if not f[key]:
+            f[key].append(f"ZZP_{key}")
+    if not f["mdata"]:
+        f["mdata"].append("zzp_meta")
+    f["msgs"] += [["m", "ZZP_A", 4001, "sig"], ["m", "ZZP_B", 4001, "sig"]]
+    return file_text(f, [])
+
+
 def run_real(case: Dict[str, Any]) -> Dict[str, Any]:
     """The implementation's observation: {"ok": True, tables...} or {"ok": False, "cls": name, "msg": text}."""
     from pyrtma import parser as P
@@ -297,7 +335,7 @@ def run_real(case: Dict[str, Any]) -> Dict[str, Any]:
         layout["parser_reused"] = reused
         if reused:
             bad = base / "zz_poison.yaml"
-            bad.write_text("message_defs:\n  ZZP_A:\n    id: 4001\n    fields: null\n  ZZP_B:\n    id: 4001\n    fields: null\n")
+            bad.write_text(poison_text(case))
             try:
                 p.parse(bad)
             except BaseException as e:  # noqa: BLE001 — intended
@@ -497,8 +535,9 @@ def reserve_pattern() -> Tuple[str, str]:
             return pats[0].pattern, fs[0]
     except Exception:  # noqa: BLE001
         pass
-    raise C.MachineryError("the pattern Parser.handle_reserve matches `start-end` entries with was not found "
-                           "(neither a literal nor a compiled pattern object)")
+    # a tree whose handle_reserve matches no pattern we can find is an observation about the tree, not a failure of the
+    # framework: the caller falls back to the modelled pattern for the reference column and reports the tie as broken
+    return None, None  # type: ignore[return-value]
 
 
 _WS = [" ", " ", "  ", "\t", "\n", "\r", "\x0b", "\x0c", "\x1c", "\x1f", "\x85", "\xa0", "\u1680", "\u2000", "\u200a", "\u2028",
@@ -599,6 +638,9 @@ def rx_run(entries: List[Any]) -> Tuple[List[Dict[str, Any]], List[str], Dict[st
     pattern, func = reserve_pattern()
     _, maxmsg = core_files()
     meta = {"pattern": pattern, "function": func, "pattern_is_the_modelled_one": pattern == MODELLED_PATTERN and func == "search"}
+    if pattern is None:
+        meta["pattern_missing"] = True
+        pattern = MODELLED_PATTERN
     recs = [_rx_work((e, pattern, maxmsg)) for e in entries]
     lines: List[str] = []
     for k, r in enumerate(recs):
